@@ -104,6 +104,7 @@ def parseMOp : Sexp → Option MOp
   | .list [.atom "clear"] => some .clear
   | .list [.atom "geti", i] => i.nat?.map .getIndex
   | .list [.atom "ins1", k] => k.int?.map .insert1
+  | .list [.atom "setat", i, k, v] => do some (.setAt (← i.nat?) (← k.int?) (← v.int?))
   | .list [.atom "put", k, v] => do some (.put (← k.int?) (← v.int?))
   | .list [.atom "sort"] => some .sort
   | .list (.atom "extend" :: es) => (parsePairs es).map .extend
